@@ -21,8 +21,10 @@
 //! Reply
 //!   `ok <r1>,<r2>,… <complete|partial>`  ri = `0:<size>` | `1:<size>` | `u:<size>` | `p`
 //!   `err invalid`           the completed output does not decode to the assembled tree (implementation
-//!                           side) / a recorded step is not what the protocol model produces under the
-//!                           checked replay policy (model side)
+//!                           side) / a recorded step is not what the protocol model produces, or a
+//!                           retained addition contains an invalid back-reference (model side; an invalid
+//!                           back-reference in an addition that is undone later cannot be seen in the
+//!                           final bytes and is tolerated by the stream verdict, `INCWHY` reports it)
 //!   `err nondeterministic`  re-running the history (new salt) gave other bytes than the recorded ones
 //!   `panic`                 a panic anywhere but in an `add` after completion
 use crate::rng::Rng;
@@ -372,15 +374,11 @@ pub fn run(args: &[&str]) -> String {
     if got != outs {
         return "err nondeterministic".into();
     }
-    // complete a partial history with one-byte atoms, then decode
+    // a partial history is only re-run (the generator never emits one: what a later completion would
+    // write cannot be judged from the recorded steps); a complete one is decoded
     let complete = ex.done;
-    let fill = ex.fill_atom();
-    let mut guard = 0;
-    while !ex.done {
-        guard += 1;
-        if guard > 100000 || ex.step(&Step::Add { shared: false, tree: fill.clone() }).is_err() {
-            return "panic".into();
-        }
+    if !complete {
+        return format!("ok {} partial", got.iter().map(|o| o.fmt_size()).collect::<Vec<_>>().join(","));
     }
     let Some(want) = assemble(&ex.trees, sent.marker()) else { return "err invalid".into() };
     let mut a2 = Allocator::new();
@@ -515,7 +513,7 @@ pub fn random_sent(rng: &mut Rng) -> Sent {
 
 /// a random history and the outputs of the real serializer for it.  `Err`: the serializer panicked
 /// where it must not (the steps so far are returned)
-pub fn random_history(rng: &mut Rng, big: bool) -> (Sent, Vec<Step>, Vec<StepOut>, bool) {
+pub fn random_history(rng: &mut Rng, big: bool, always_complete: bool) -> (Sent, Vec<Step>, Vec<StepOut>, bool) {
     let sent = random_sent(rng);
     let marker = sent.marker().cloned();
     let m = marker.as_ref();
@@ -600,7 +598,7 @@ pub fn random_history(rng: &mut Rng, big: bool) -> (Sent, Vec<Step>, Vec<StepOut
         }
     }
     // complete most histories with hole-free pieces
-    if ok && !ex.done && !rng.chance(1, 8) {
+    if ok && !ex.done && (!rng.chance(1, 8) || always_complete) {
         let mut guard = 0;
         let fill = ex.fill_atom();
         while !ex.done && guard < 60 {
@@ -621,6 +619,19 @@ pub fn random_history(rng: &mut Rng, big: bool) -> (Sent, Vec<Step>, Vec<StepOut
         }
     }
     (sent, steps, outs, ok)
+}
+
+/// is the serializer in the completed state after the last step?
+fn ends_complete(steps: &[Step], outs: &[StepOut]) -> bool {
+    let mut done = false;
+    for (s, o) in steps.iter().zip(outs) {
+        match (s, o) {
+            (_, StepOut::Add(d, _)) => done = *d,
+            (_, StepOut::Undo(_)) => done = false,
+            _ => {}
+        }
+    }
+    done
 }
 
 fn continue_or_break(plan: &mut std::collections::VecDeque<T>) {
@@ -733,7 +744,7 @@ pub fn generate(rng: &mut Rng, n: usize, tier: &str) -> Vec<String> {
     while out.len() < n {
         i += 1;
         let big = tier == "thorough" && i % 9 == 0;
-        let (sent, steps, outs, ok) = random_history(rng, big);
+        let (sent, steps, outs, ok) = random_history(rng, big, true);
         if !ok {
             // a panic in the real serializer: the line ends with the step that panicked, recorded as `p`;
             // the model does not panic there, so the stream reports it
@@ -742,7 +753,8 @@ pub fn generate(rng: &mut Rng, n: usize, tier: &str) -> Vec<String> {
             out.push(line(&format!("x{}", i), &sent, &steps, &outs));
             continue;
         }
-        if steps.is_empty() {
+        // only completed histories (an `add` after completion may follow the completing one)
+        if steps.is_empty() || !outs.iter().any(|o| matches!(o, StepOut::Add(true, _))) || !ends_complete(&steps, &outs) {
             continue;
         }
         out.push(line(&format!("i{}", i), &sent, &steps, &outs));
@@ -1051,7 +1063,7 @@ pub fn oracle(rng: &mut Rng, n: usize, tier: &str) -> OracleReport {
     }
     for i in 0..n {
         let big = tier == "thorough" && i % 9 == 0;
-        let (sent, steps, _outs, ok) = random_history(rng, big);
+        let (sent, steps, _outs, ok) = random_history(rng, big, false);
         if !ok {
             rep.evaluations += 1;
             rep.fail("inc_no_panic", format!("{} panic in the last step", describe(&sent, &steps)));
